@@ -8,7 +8,27 @@ use std::sync::OnceLock;
 
 pub fn vocab_of(lang: &str) -> &'static Vocab {
     static V: OnceLock<Vec<Vocab>> = OnceLock::new();
-    &V.get_or_init(|| LANGS.iter().map(|l| vocab(l)).collect())[crate::util::lang_index(lang)]
+    &V.get_or_init(|| {
+        LANGS
+            .iter()
+            .map(|l| {
+                let mut v = vocab(l);
+                // everyday words, minus anything this tree's library treats as a number or a linking word
+                let lg = crate::util::lang(l);
+                for w in common_words_raw(l) {
+                    let lo = w.to_lowercase();
+                    let is_num = text2num::text2digits(w, lg).is_ok();
+                    let is_link = text2num::LangInterpreter::is_linking(lg, &lo);
+                    let known = v.number_words.iter().any(|x| x.to_lowercase() == lo) || v.linking.contains(&lo.as_str()) || lo == v.conj || lo == v.sep || v.conj_alts.contains(&lo.as_str()) || v.zeros.contains(&lo.as_str());
+                    if !is_num && !is_link && !known && !v.fillers.contains(&w) {
+                        v.fillers.push(w);
+                        v.common.push(w);
+                    }
+                }
+                v
+            })
+            .collect()
+    })[crate::util::lang_index(lang)]
 }
 
 /// monotone index mapping (never `%`, so shrinking an index shrinks the choice)
